@@ -77,6 +77,10 @@ def generate(rng, tier, i):
     big = tier == "thorough" and rng.random() < 0.3
     nv = rng.randint(1, 10 if tier == "thorough" else 8)
     cons = [gen_constraint(rng, nv, big) for _ in range(rng.choice([1, 1, 2, 3, 4]))]
+    if rng.random() < 0.25:
+        # the same inequality (same operand objects) posted again with another bound / operator / construction
+        for c in [c for c in cons if c["k"] == "pb"][:1]:
+            cons.append(dict(c, bound=c["bound"] + rng.choice([-2, -1, 0, 1]), op=rng.choice([">=", "<=", ">", "<"]), decomp=rng.random() < 0.5))
     hist = [gen_pb(rng, rng.randint(1, 8)) for _ in range(rng.choice([0, 0, 1, 3, 6]))]
     if hist and rng.random() < 0.3:
         # the probed inequality itself (or a near copy) appears in the history
@@ -116,11 +120,22 @@ def holds(c, asg):
     return {">=": s >= b, "<=": s <= b, ">": s > b, "<": s < b, "=": s == b}[c["op"]]
 
 
+_term_cache: dict = {}
+
+
+def shared_term(t, lit):
+    """the caller keeps its Term objects and uses them in several constraints (and several times in one): one object per (coefficient, literal)"""
+    key = (t[0], t[1], t[2])
+    if key not in _term_cache:
+        _term_cache[key] = _pb.Term(lit(t[1:]), t[0])
+    return _term_cache[key]
+
+
 def build_ineq(c, lit):
     pb = _pb
     e = pb.Expr()
     for t in c["terms"]:
-        e = e + pb.Term(lit(t[1:]), t[0])
+        e = e + shared_term(t, lit)
     rhs = pb.Expr() + c["bound"]
     return pb.Ineq(e, rhs, c["op"])
 
@@ -153,6 +168,7 @@ def check(case, ctx):
         ctx.count("history_encodings")
     sm = sat.SATManager()
     uv = [sm.newvar(VARS[k]) for k in range(nv)]
+    _term_cache.clear()
 
     def lit(l):
         return uv[l[0]] if l[1] else -uv[l[0]]
